@@ -348,6 +348,11 @@ Chk_HRecvRet(res, msg) ==
   IF res.k = "nil" THEN
        ChkHandlerMsg(msg)
        \cup V(~(kind = "unary" /\ tr = "inproc" /\ hPend # <<>> /\ hPend[4]), "C06", "request-read-after-return")
+       \* ... and a request that arrives altered was read while its owner was
+       \* using it again (the caller of the harness scribbles over its request
+       \* as soon as Invoke has returned, and only then; the order of the two
+       \* log lines proves nothing, the content does)
+       \cup V(~(kind = "unary" /\ tr = "inproc" /\ msg = 0), "C06", "request-changed-under-the-handlers-copy")
        \cup V(~(tr = "http" /\ ~ReqStream /\ hPend # <<>> /\ hPend[2] >= 2), "C08", "second-request-accepted")
   ELSE IF res.k = "eof" THEN
        \* (once the context has ended the request stream is broken anyway and
